@@ -889,6 +889,22 @@ fn packaging_case(cx: &mut Ctx, r: &mut Rng, label: &str, src: &str, p: &Bytecod
     } else {
         rep.rejections.push(("shake".into(), ans));
     }
+    // translator-strength tie: the Lean port `treeShake` must produce EXACTLY this bytecode (slots A = p,
+    // B = shaken are still loaded), and its own remap tables must validate against B's tables
+    {
+        let a = cx.model.ask(&format!("(shake {e})"));
+        if a.starts_with("equal") && a.contains(&format!("entry={se} ")) && a.contains("validate=true") {
+            cx.ev.hit("shake:model-equals-tree_shake");
+        } else {
+            cx.ev.hit("shake:model-differs");
+            cx.ev.violation(
+                &format!("path=shake kind=model-differs-from-tree_shake what={}", a.split_whitespace().take(2).collect::<Vec<_>>().join("-")),
+                &format!("{label}: the Lean port of tree_shake does not reproduce the real output: {}", clip(&a)),
+                json!({"broken": "correspondence treeShake (Core/Packaging/TreeShake.lean) <-> optimisation.rs tree_shake (exact bytecode equality; C10.treeShake_* theorems speak about the port)", "source": src, "entry": e, "model": a, "real_entry": se}),
+                false,
+            );
+        }
+    }
     cx.ev.add("shake:functions-dropped", (p.functions.len() - shaken.functions.len()) as u64);
     cx.ev.add("shake:types-dropped", (p.types.len() - shaken.types.len()) as u64);
     cx.ev.add("shake:constants-dropped", (p.constants.len() - shaken.constants.len()) as u64);
